@@ -50,6 +50,7 @@ pub fn run_script(o: &RunOpts) -> Result<usize, String> {
     let exe = std::env::current_exe().map_err(|e| format!("{e}"))?;
     let mut nev = 0usize;
     let mut from = 0usize;
+    let mut in_epilogue = false;
     while from < ops.len() {
         // segment: up to and including the next process boundary
         let mut to = from;
@@ -161,10 +162,20 @@ pub fn run_script(o: &RunOpts) -> Result<usize, String> {
             }
         }
         if aborted || hang {
-            // the state after an interrupted update is not trusted: the history ends here
+            // the state after an interrupted update is not trusted: the history ends here ...
             writeln!(trace, "{}", json!({"ev": "aborted", "i": last_i + 1, "outcome": "ok"})).map_err(|e| format!("{e}"))?;
             nev += 1;
-            break;
+            // ... except for an epilogue the script marks "always": observations of the FILES (digests and their
+            // comparison) that make sense whatever happened to the process, executed by a fresh worker
+            let failed = (last_i + 1) as usize;
+            match (failed + 1..ops.len()).find(|&i| ops[i].get("always").and_then(|a| a.as_bool()).unwrap_or(false)) {
+                Some(a) if !in_epilogue => {
+                    in_epilogue = true;
+                    from = a;
+                    continue;
+                }
+                _ => break,
+            }
         }
         from = to;
     }
